@@ -543,6 +543,10 @@ impl<'a> Model<'a> {
                 }
                 Ok(MO::Val(V::Str(out)))
             }
+            // C05/C07/C08 say nothing about the wall clock or about which binding a colliding
+            // name resolves to (C09 / C12): no rule here, the case is run but not compared
+            E::Now(_) => Err(Silent("wall clock read (C09's ground)")),
+            E::NCall(..) => Err(Silent("call by a colliding name (C12's ground)")),
         }
     }
 
